@@ -88,6 +88,12 @@ func Check(env *core.Env, rep *core.Report) *core.Result {
 	}
 	// Scheduler.Cancel while an included pipeline is being scheduled (fake runner that records what it is handed)
 	run(func() { sched.NestedCancel(env, rep, map[bool]int{false: 5, true: 100}[thorough]) })
+	// the composition: pipelines cancelled by a condition error, end to end (Taskctl.tla with CondErr),
+	// model-checked and validated on logs of the real binary
+	var composeInfo map[string]interface{}
+	run(func() {
+		composeInfo = sched.ComposeCheck(env, rep, map[bool]int{false: 24, true: 300}[thorough], "cerr2q", "cerr3_killed", "cerr3_refused", "+cerr2", "+cerr3")
+	})
 	// two runs of tasks with the same name (outside the model's numbering of runs)
 	sameName := 0
 	run(func() { sameName = checkSameName(env, rep) })
@@ -323,6 +329,7 @@ func Check(env *core.Env, rep *core.Report) *core.Result {
 		"rule":                                     "scenario = (mode runner|scheduler|condition-error, number of Cancel calls, hold point of every run: late/waiting, before-hook, command 1, between commands, command 2, after-hook, done) as enumerated by CancelGen.tla with the set of outcomes Cancel.tla allows; each executed in its own child process against the real TaskRunner/Scheduler with gates; distinct = distinct scenarios executed",
 		"model_runs":                               modelRuns,
 		"same_task_name_scenarios":                 sameName,
+		"whole_binary_runs_incl_condition_errors":  composeInfo,
 		"binding_selftest":                         selftest,
 		"samples":                                  samples.List(),
 		"checker_cmds":                             cmds,
